@@ -17,7 +17,7 @@ def files_of(d):
 
 def mutant_rows(which):
     rows, stats = [], {'n': 0, 'own': 0, 'notviol': 0, 'missed_first': 0, 'notrep': 0}
-    for d in sorted(glob.glob('/verif/seeded/C*/')):
+    for d in sorted(glob.glob('/verif/seeded/C*/'), key=lambda x: (x.split('/')[-2].split('-')[0], int(x.split('/')[-2].split('-M')[1]))):
         m = json.load(open(d + 'meta.json'))
         if m['mutant'] not in which:
             continue
@@ -74,6 +74,7 @@ def section():
     r2, s2 = mutant_rows({'M3', 'M4'})
     r3, s3 = mutant_rows({'M5', 'M6'})
     r4, s4 = mutant_rows({'M7', 'M8'})
+    r5, s5 = mutant_rows({'M9', 'M10'})
     rr, nr, alarms = refactor_rows()
     out = []
     out.append("## 11. Seeded changes and refactorings: which check catches which, and which stays silent\n")
@@ -166,7 +167,20 @@ rewrite, lines cut into three pieces on the wire, the socket stream up to the en
 
 {HEAD}
 """ + "\n".join(r4) + "\n")
-    out.append(f"""### 11.{5 if r4 else (4 if r3 else 3)} Behaviour-preserving refactorings - the checks must stay silent
+    if r5:
+        out.append(f"""### 11.5 Round 5 - "an edge of the quantifier / an interaction of two existing features" (12 properties)
+
+Last round, for twelve properties, while the final self-tests ran.  The sub-agents were told the titles of
+the eight earlier changes and asked for (M9) a natural-looking slip at an extreme-but-legal corner that the
+FOR ALL explicitly includes and (M10) a change that breaks the property only where two existing features
+of the emulator meet (an interrupt next to the operation, pause / resume, a host message in the same poll,
+a sync threshold, the loader's layout, print / log flags, two peripherals at once).  {s5['n']} changes;
+**{s5['own']} are reported by the property's own quick check, {s5['missed_first']} of them only after a strengthening**;
+{s5['notrep']} not reported (recorded as limits, §9); {s5['notviol']} judged not to violate the property as stated.
+
+{HEAD}
+""" + "\n".join(r5) + "\n")
+    out.append(f"""### 11.{6 if r5 else (5 if r4 else (4 if r3 else 3))} Behaviour-preserving refactorings - the checks must stay silent
 
 The opposite experiment: {nr} refactorings for {refactor_props()} properties.  R1 / R2: two per property; half of
 them were explicitly asked to be *correct* optimisations that carry state across operations - memos
